@@ -3,6 +3,7 @@
   (byte level, L1; the WAL level is carried by the crash suite's ghost-state monitors, see DESIGN §6)
 -/
 import RaftWal.Proofs.SegmentTorn
+import RaftWal.Proofs.CrashCorollaries
 namespace RaftWal.C02
 open RaftWal
 
@@ -69,5 +70,27 @@ theorem recovery_leaves_clean_region (info : SegInfo) (file : Bytes) (w : Writer
       subst hw hf
       exact clearStale_clean file _
     · simp at h
+
+/-! ## WAL level: the durability protocol (Model/Crash.lean — meta commits, file creation, rotation, truncation, Open,
+    tied to wal.go by the crash suite's action-by-action and image-by-image correspondence).  `Crash.QuiescentS` is
+    the invariant of a live process between calls; it holds after Open on an empty directory, after every completed
+    call and after every recovery (`Crash.init_quiescentS`, `Crash.call_refines_corrected`, `Crash.crash_safe_corrected`). -/
+
+/-- **an append cut by a crash is recovered as absent or whole** — the log after recovery is the log before the call
+    or that log followed by the whole batch; nothing else, whatever the crash point, crash kind and recovery history -/
+theorem append_all_or_nothing_any_crash (d : Crash.Disk) (hq : Crash.QuiescentS d) (first : Nat) (es : List Crash.Entry)
+    (s : Bool) (hok : (Crash.Op.store first es s).ok d) (k : Nat) (c : Crash.CrashKind) (d1 d' : Crash.Disk)
+    (hr : Crash.ReachRec (Crash.crashAfter d (Crash.prog d (.store first es s)) k c) d1)
+    (ho : Crash.openResult d1 = some d') :
+    Crash.absLog d' = Crash.absLog d ∨ Crash.absLog d' = Crash.absLog d ++ Crash.appended first es :=
+  Crash.append_all_or_nothing d hq first es s hok k c d1 d' hr ho
+
+/-- for every call: the recovered log is the specification's log before or after the call (never fabricated, never
+    half-applied) -/
+theorem recovered_log_before_or_after (d : Crash.Disk) (hq : Crash.QuiescentS d) (op : Crash.Op) (hok : op.ok d) (k : Nat)
+    (c : Crash.CrashKind) (d1 d' : Crash.Disk) (hr : Crash.ReachRec (Crash.crashAfter d (Crash.prog d op) k c) d1)
+    (ho : Crash.openResult d1 = some d') :
+    Crash.absLog d' = Crash.absLog d ∨ Crash.absLog d' = Crash.specApply (Crash.absLog d) op :=
+  (Crash.crash_safe_corrected d hq op hok k c d1 d' hr ho).2.1
 
 end RaftWal.C02
